@@ -43,6 +43,47 @@ def layer_roundtrip(ctx, node):
     return down[0], up
 
 
+def layer_after_rejected(ctx, bad, node):
+    """one YowCoderLayer: a stanza it cannot encode (the sender gets the error), then `node`: returns (error, frames written for node, nodes handed up)"""
+    from yowsup.layers.coder import YowCoderLayer
+    c = YowCoderLayer()
+    down, up = [], []
+    c.toLower = down.append
+    c.toUpper = up.append
+    err = None
+    try:
+        c.send(bad)
+    except Exception as e:
+        err = e
+    n0 = len(down)
+    c.send(node)
+    frames = down[n0:]
+    for f in frames:
+        c.receive(f)
+    return err, frames, up
+
+
+def bad_stanza(kind):
+    """stanzas an application can hand down by mistake: a value the codec refuses only after it has begun to write"""
+    enc, dec, td, N = lib()
+    if kind == "attribute value None":
+        n = N("receipt", {"id": "abc"}, [N("x")])
+        n.attributes["t"] = None
+        return n
+    if kind == "attribute value int":
+        n = N("receipt", {"id": "abc"}, [N("x")])
+        n.attributes["t"] = 1400000000
+        return n
+    if kind == "child with a bad attribute":
+        c = N("item", {"id": "i1"})
+        c.attributes["count"] = 3
+        return N("receipt", {"id": "abc"}, [N("list", {}, [c])])
+    raise ValueError(kind)
+
+
+BAD_STANZAS = ("attribute value None", "attribute value int", "child with a bad attribute")
+
+
 # --- normalised view of trees (library nodes and reference tuples) ------------------------------
 def view(n):
     if isinstance(n, tuple):
